@@ -52,7 +52,8 @@ fn good_json(i: u64, v: u64) -> Value {
 fn gen_vdoc(rng: &mut Rng, ver: &mut u64, p_invalid: u64) -> VDoc {
   if rng.chance(p_invalid, 100) {
     let i = rng.below(NIDS);
-    let d = match rng.below(9) {
+    let d = match rng.below(10) {
+      9 => json!({"_id": format!("d{i}"), "boty": "a field the schema does not have"}),
       0 => json!({"body": "no id"}),
       1 => json!({"_id": "", "body": "empty id"}),
       2 => json!({"_id": "   ", "body": "blank id"}),
